@@ -282,6 +282,10 @@ func addLineText(p *lineParser) {
 	}
 
 	switch k := p.ContainerKind(); {
+	case k == ParagraphKind:
+		// Paragraph continuation line:
+		// leading spaces and tabs are not part of the text.
+		p.ConsumeIndent(p.Indent())
 	case blockRules[k].acceptsLines:
 		if p.i < len(p.line) && p.line[p.i] == '\t' && p.tabRemaining > 0 && p.tabRemaining < tabStopSize {
 			p.container.inlineChildren = append(p.container.inlineChildren, &Inline{
